@@ -12,7 +12,7 @@ SHARDS = {'quick': 16, 'thorough': 32}
 TIMEOUT = {'quick': 900, 'thorough': 5400}
 MUST_HIT = ['IdFresh.instance-attribute', 'Generator.user-source-sequence', 'Generator.swapped', 'ArgModel.creation', 'IdFresh.defaulted-id', 'IdFresh.generator-next', 'Generator.peek',
             'Generator.integer-sequence', 'UnknownType.rejected', 'Referential.argument',
-            'Schema.association-formalized-after-creations', 'Schema.attribute-replaced',
+            'Schema.association-formalized-after-creations', 'Schema.iterations-between-definition-and-formalization', 'Schema.attribute-replaced',
             'Schema.attribute-added', 'Schema.attribute-removed', 'Generator.drawn-by-for-break',
             'Generator.drawn-by-islice', 'Generator.drawn-by-zip', 'Generator.drawn-by-next(iter())',
             'IdFresh.peeked-id-given-explicitly']
@@ -144,6 +144,7 @@ def run_case(ctx, rng, n_case):
 
     targets = [m.new('Tgt') for _ in range(2)]
     expect_int = 1
+    pending = []      # associations defined but not formalized yet
     if gkind == 'integer':
         # the loader consumes no ids for an empty population; Tgt took 1 and 2
         if [t.Id for t in targets] != [1, 2]:
@@ -164,9 +165,18 @@ def run_case(ctx, rng, n_case):
             ass = m.define_association(r.rel, r.src, list(r.src_keys), 'M' in r.src_card, 'C' in r.src_card,
                                        r.src_phrase, r.tgt, list(r.tgt_keys), 'M' in r.tgt_card,
                                        'C' in r.tgt_card, r.tgt_phrase)
-            ass.formalize()
-            sch.rops.append(r)
-            rops.append(r)
+            # the association is formalized at once, or only some creations later (the two steps of
+            # bridgepoint.ooaofooa.mk_component): until it is, its key attribute stays an ordinary id attribute
+            pending.append([0 if rng.random() < 0.5 else rng.randint(1, 6), ass, r])
+        for entry in list(pending):
+            if entry[0] > 0:
+                entry[0] -= 1
+                ctx.hit('Schema.iterations-between-definition-and-formalization')
+                continue
+            pending.remove(entry)
+            entry[1].formalize()
+            sch.rops.append(entry[2])
+            rops.append(entry[2])
         if rng.random() < 0.1:
             # the class is edited between two creations (attribute retyped, renamed, added or removed):
             # every later creation follows the attribute list of that moment
